@@ -973,6 +973,16 @@ func (ex *Exec) execBlock(fr *Frame, st *State, b *ssa.BasicBlock, rets *[]retRe
 		case *ssa.MakeChan:
 			r := st.allocRef()
 			fr.regs[x] = Sc{r, x.Type()}
+			// the capacity of a channel never changes: a global function of the reference
+			if sz, ok := ex.val(fr, x.Size).(Sc); ok && sz.T.Sort.Kind == SBV {
+				szT := sz.T
+				if szT.Sort.W < 64 {
+					szT = SExt(szT, 64)
+				}
+				if szT.Sort.W == 64 {
+					st.assume(Eq(Select(chanCapVar(), r), szT))
+				}
+			}
 		case *ssa.MakeClosure:
 			fv := FnV{Fn: x.Fn, Ty: x.Type()}
 			for _, b := range x.Bindings {
@@ -1802,6 +1812,9 @@ func (ex *Exec) execSelect(fr *Frame, st *State, x *ssa.Select) Value {
 
 // ---------------------------------------------------------------------------
 // maps
+
+// chanCapVar: capacity of channels by reference (immutable, so not part of the heap).
+func chanCapVar() *Term { return Var("chancap", ArraySort(RefSort, IntSort)) }
 
 func mapFam(mt *types.Map) string {
 	return "M|" + typeKey(mt.Key()) + "|" + typeKey(mt.Elem())
